@@ -97,6 +97,12 @@ func NewPositionRange(lines []string, val *yaml.Node, minColumn int) (offsets Po
 	need := val.Value[needIndex]
 	lineIndex := val.Line
 	columnIndex := val.Column
+	if val.Style&(yaml.LiteralStyle|yaml.FoldedStyle) != 0 {
+		// The text of a block scalar starts on the line after its `|` or `>` indicator,
+		// the indicator line itself (`|-`, `>+`, ...) is never part of the value.
+		lineIndex++
+		columnIndex = minColumn
+	}
 
 	for lineIndex <= len(lines) {
 		// Append new line but only if we already have any tokens.
@@ -109,6 +115,10 @@ func NewPositionRange(lines []string, val *yaml.Node, minColumn int) (offsets Po
 		}
 
 		columnIndex = min(len(lines[lineIndex-1]), columnIndex)
+		if lineIndex > val.Line {
+			// Continuation lines can be indented less than the key (plus two), start where the text does.
+			columnIndex = min(countLeadingSpace(lines[lineIndex-1])+1, columnIndex)
+		}
 
 		lineSpaces = countLeadingSpace(lines[lineIndex-1][columnIndex-1:])
 		valSpaces = countLeadingSpace(val.Value[needIndex:])
